@@ -316,6 +316,7 @@ func init() {
 			modInvokerScenarios(c)
 			modFileOracle(c)
 			modulePrivacyOracle(c)
+			evalFailedImportOracle(c, "C12")
 			for i := range cases {
 				mc := &cases[i]
 				if mc.Kind != "scope" {
